@@ -255,6 +255,52 @@ Theorem C03_vol_create_many_keeps_wf : forall fold upper oem reqs im im',
   vol_create_many upper oem im reqs = Some im' -> Wf.wf_issues fold im' = [].
 Proof. exact vol_create_many_keeps_wf. Qed.
 
+(* ================================================================================================================
+   The recorded known-finding class "deferred-entry-writeback" as a theorem (Model/VolSession.v, Proofs/VolSessionFormat.v):
+   File::write allocates clusters and writes FAT entries and data at once, but the size and first-cluster fields of the
+   directory entry only reach the device with File::flush / drop.  In between the device is NOT well formed. *)
+From FatVerif Require Import Model.Table Model.Fat Model.FileM Model.VolFile Model.VolSession Model.Format Spec.FormatSpec
+  Model.FormatImage Spec.FormatImageSpec Spec.ByteFile Proofs.TableProofs Proofs.FileProofs Proofs.FormatProofs Proofs.FormatImageProofs
+  Proofs.VolDirFormat Proofs.VolFileProofs Proofs.VolSessionProofs Proofs.VolSessionFormat Proofs.VolSessionExamples.
+From FatVerif Require Spec.Wf Proofs.FatProofs.
+
+(* format ; create_file(name) ; ANY calls on the handle ; NO flush yet: the handle knows size = length of the byte array and
+   a chain of ceil(size / cluster size) clusters; the decoder sees the entry as created - size 0, no first cluster - and the
+   well-formedness findings are EXACTLY the clusters of that chain, each reported LOST.  Non-empty content => not well
+   formed.  (Flush repairs it: C04_session_format_decodes.) *)
+Theorem C03_session_deferred_writeback : forall fold upper oem acc o ts im0 bs t im fi name now ops range im1,
+  builder_range o -> ts < 4294967296 -> FatProofs.bytes_ok im0 ->
+  format_boot_sector_validated o ts = Ok (bs, t) -> t <> Format.Fat32 ->
+  (o_max_root_dir_entries o * 32) mod o_bytes_per_sector o = 0 ->
+  format_image o ts im0 = Ok im ->
+  let g := geom_of (fbs_bpb bs) in
+  fi_inv fstore (VolFileProofs.val_ft (ft_of g)) (store_of g im) fi (g_clusters g) ->
+  TimeProofs.datetime_valid now = true -> Forall op_ok (map fst ops) -> clocks_ok ops ->
+  vol_create_empty_file_root upper oem im name now = (Ok (Some range), im1) ->
+  exists st1 st2 rs content pos ne l,
+    sess_create upper oem im fi name now = Some st1 /\ sess_run g acc st1 ops = (st2, rs) /\
+    bf_run ([], 0) (map fst ops) rs = Some (content, pos) /\
+    h_size (s_h st2) = Some (len_N content) /\ N.of_nat (length l) = cdiv (g_cluster_size g) (len_N content) /\
+    v_root (abs (s_im st2)) = [NFile ne None []] /\
+    e_lfn ne = stored_lfn name /\ e_size ne = 0 /\ e_cluster ne = 0 /\
+    (forall i, In i (Wf.wf_issues fold (s_im st2)) <-> exists c, i = Wf.WLost c /\ In c l) /\
+    (content <> [] -> Wf.wf_issues fold (s_im st2) <> []).
+Proof. exact format_session_unflushed. Qed.
+
+(* the witness on the 64-sector FAT12 image of Props/C06.v: "a.txt", 515 bytes written, handle still open *)
+Example C03_session_deferred_writeback_witness :
+  match sess_create ex_U ex_O ex_vol_im ex_sfi ex_sname ex_vol_now with
+  | Some st1 =>
+    let '(st2, rs) := sess_run (parse_geom ex_vol_im) false st1 ex_sops in
+    h_size (s_h st2) = Some 515 /\ h_first (s_h st2) = Some 2 /\ sess_dirty (s_h st2) (s_en st2) = true /\
+    (exists e, v_root (abs (s_im st2)) = [NFile e None []] /\ e_lfn e = ex_sname /\ e_size e = 0 /\ e_cluster e = 0) /\
+    Wf.wf_issues (fun l => l) (s_im st2) = [Wf.WLost 2; Wf.WLost 3] /\
+    Abs.count_free (parse_geom ex_vol_im) (s_im st2) = 58
+  | None => False
+  end.
+Proof. exact ex_session_unflushed. Qed.
+
+
 Print Assumptions C03_write_frame.
 Print Assumptions C03_write_effect.
 Print Assumptions C03_written_run_valid.
@@ -267,3 +313,4 @@ Print Assumptions C03_vol_decode_put_root.
 Print Assumptions C03_vol_decode_fixed_root.
 Print Assumptions C03_vol_create_keeps_wf.
 Print Assumptions C03_vol_create_many_keeps_wf.
+Print Assumptions C03_session_deferred_writeback.
